@@ -422,7 +422,7 @@ pub fn run_tokens_fixed_body<const CAP: usize>() {
     let mut out = arrayvec::ArrayVec::<u8, CAP>::new();
     let mut toks = Tokenizer::new(b"").peekable();
     kani::cover!(rf.result == -225);
-    kani::cover!(rf.result == 0 && rf.out_len == CAP);
+    kani::cover!(rf.result == 0 && rf.calls >= 1);
     let res = T3.run_tokens(&mut d, &mut ctx, &mut toks, &mut out);
     unsafe {
         assert!(EXEC_CALLS == rf.calls, "C11/Node::run_tokens/stops-at-the-unit-whose-response-does-not-fit");
